@@ -488,8 +488,9 @@ class EFloatContext(EncodableContext):
             if not isinstance(inf_value, Float):
                 raise TypeError(f'Expected \'Float\' for inf_value={inf_value}, got {type(inf_value)}')
             if not enable_inf:
-                if nan_kind == EFloatNanKind.NONE:
-                    raise ValueError(f'Cannot set Inf value to NaN when NaNs are disabled: {inf_value}')
+                if inf_value.isnan:
+                    if nan_kind == EFloatNanKind.NONE:
+                        raise ValueError(f'Cannot set Inf value to NaN when NaNs are disabled: {inf_value}')
                 elif not self._fmt._mpb_fmt.representable_in(inf_value):
                     raise ValueError(f'Cannot set Inf value to {inf_value} when it is not representable in this context')
 
